@@ -47,6 +47,12 @@ func init() {
 		c12U(c, unhx(in[0]), k, in[2] == "1")
 	}
 	r8Wrap("C06", r8C06)
+	r8Wrap("C16", r8C16D)
+	r8Wrap("C20", r8C16D)
+	replayers["C16D"] = func(c *ctx, in []string) {
+		k, _ := strconv.Atoi(in[1])
+		c16D(c, in[0], k)
+	}
 	r8Wrap("C15", r8C15)
 	r8Wrap("C09", r8C15)
 	r8Wrap("C09", r8H09B)
@@ -770,5 +776,85 @@ func r8C15(c *ctx) {
 		fz(c, "upn", []byte(req))
 		hdr := []hmEntry{{"Upgrade", []string{"websocket"}}, {"Connection", []string{"Upgrade"}}, {"Sec-Websocket-Version", []string{"13"}}, {"Sec-Websocket-Key", []string{k}}}
 		h09(c, "up", "GET", 1, 1, "example.com", hdr, nil, nil, nil, nil)
+	}
+}
+
+// r8-C16: Dial (context alive, not Background) over a conn whose Read delivers the first k bytes of a valid response and
+// then fails with a TIMEOUT-type error of its own (a read deadline set by someone else, an i/o timeout of a proxy
+// layer): the handshake was cut, Dial must report an error.
+//
+//	C16D <ctx kind> <k> -> <error 0|1> <class>
+type c16dConn struct {
+	net.Conn
+	resp  []byte
+	k     int
+	given int
+	in    bytes.Buffer
+}
+
+func (f *c16dConn) Write(p []byte) (int, error) { return f.in.Write(p) }
+func (f *c16dConn) Read(p []byte) (int, error) {
+	if f.resp == nil {
+		f.resp = substAccept([]byte("HTTP/1.1 101 Switching Protocols\r\nUpgrade: websocket\r\nConnection: Upgrade\r\nSec-WebSocket-Accept: @@ACCEPT@@\r\n\r\n"), keyOfRequest(f.in.Bytes()))
+	}
+	if f.given >= f.k || f.given >= len(f.resp) {
+		return 0, errTimeout
+	}
+	n := copy(p, f.resp[f.given:f.k])
+	f.given += n
+	return n, nil
+}
+func (f *c16dConn) Close() error                     { return nil }
+func (f *c16dConn) SetDeadline(time.Time) error      { return nil }
+func (f *c16dConn) SetReadDeadline(time.Time) error  { return nil }
+func (f *c16dConn) SetWriteDeadline(time.Time) error { return nil }
+
+func c16D(c *ctx, kind string, k int) {
+	ctx := context.Background()
+	var cancel context.CancelFunc = func() {}
+	switch kind {
+	case "cancel":
+		ctx, cancel = context.WithCancel(ctx)
+	case "deadline":
+		ctx, cancel = context.WithTimeout(ctx, time.Minute)
+	case "value":
+		ctx = context.WithValue(ctx, c16dKey{}, 1)
+	}
+	defer cancel()
+	d := ws.Dialer{NetDial: func(ctx context.Context, network, addr string) (net.Conn, error) { return &c16dConn{k: k}, nil }}
+	if kind == "timeout" {
+		d.Timeout = time.Minute
+	}
+	cls := "hang"
+	iserr := 0
+	done := make(chan struct{})
+	go func() {
+		defer close(done)
+		defer func() {
+			if recover() != nil {
+				cls = "panic"
+			}
+		}()
+		_, br, _, err := d.Dial(ctx, "ws://c16d.example/")
+		if br != nil {
+			ws.PutReader(br)
+		}
+		cls = errClass(err)
+		iserr = b2i(err != nil)
+	}()
+	select {
+	case <-done:
+	case <-time.After(3 * time.Second):
+	}
+	c.emit("C16D %s %d -> %d %s", kind, k, iserr, cls)
+}
+
+type c16dKey struct{}
+
+func r8C16D(c *ctx) {
+	for _, kind := range []string{"bg", "cancel", "deadline", "value", "timeout"} {
+		for _, k := range []int{0, 1, 10, 40, 80, 120, 127, 128} {
+			c16D(c, kind, k)
+		}
 	}
 }
